@@ -341,6 +341,45 @@ func C02(r *h.Run) {
 			}
 		}
 	}
+	// details whose message type is not linked into either binary (a gateway passing on the
+	// details of an upstream service): they are opaque Any values, and travel as such
+	for _, proto := range protos {
+		for _, kind := range []string{"unary", "server"} {
+			var copts []connect.ClientOption
+			switch proto {
+			case "grpc":
+				copts = append(copts, connect.WithGRPC())
+			case "grpcweb":
+				copts = append(copts, connect.WithGRPCWeb())
+			}
+			retErr := connect.NewError(connect.CodeNotFound, errors.New("no such thing"))
+			unknown := &anypb.Any{TypeUrl: "type.googleapis.com/acme.upstream.v1.Reason", Value: []byte{0x0a, 0x03, 'a', 'b', 'c'}}
+			retErr.AddDetail(unknown)
+			ex := &e2eExtras{}
+			send := [][]byte{{1}}
+			res := runE2E(bytesValueKind, kind, viaLocal, copts, nil, [][]byte{{1}}, send, retErr, 0, ex)
+			in := map[string]any{"proto": proto, "kind": kind, "code": "not_found", "detail": "Any{type_url: type.googleapis.com/acme.upstream.v1.Reason} (a type linked into neither side)"}
+			r.Eval("e2e_unlinked_detail", fmt.Sprint(proto, kind))
+			if res.Panic != nil {
+				r.Fail(h.Failure{Key: "error/panic-or-hang", Family: "e2e_unlinked_detail", What: fmt.Sprint(res.Panic), Input: in})
+				continue
+			}
+			r.Sample("e2e_unlinked_detail", map[string]any{"in": in, "client_error": fmt.Sprint(ex.ClientErr)})
+			var ce *connect.Error
+			okAll := errors.As(ex.ClientErr, &ce) && ce.Code() == connect.CodeNotFound && ce.Message() == "no such thing" && len(ce.Details()) == 1
+			if okAll {
+				a, isAny := ce.Details()[0].(*anypb.Any)
+				okAll = isAny && a.GetTypeUrl() == unknown.TypeUrl && bytes.Equal(a.GetValue(), unknown.Value)
+			}
+			if !okAll {
+				key := "error/unlinked-detail-type"
+				if proto == "connect" {
+					key = "error/connect/unlinked-detail-type"
+				}
+				r.Fail(h.Failure{Key: key, Family: "e2e_unlinked_detail", What: "an error whose detail is an Any of a message type not linked into the binary did not arrive with its code, message and that detail", Input: in, Expected: "not_found: no such thing + 1 detail", Actual: fmt.Sprint(ex.ClientErr)})
+			}
+		}
+	}
 	// the REQUEST's own context is ended by the server side (a per-route budget middleware, a
 	// draining server's BaseContext) while the peer is still connected, and the handler returns
 	// its error: the error is written all the same
